@@ -620,3 +620,27 @@ Qed.
 Theorem filter_subset {A} (d:A) (rows:list A) m :
   length m = length rows -> sublist (gather d rows (sel m)) rows.
 Proof. intros H. rewrite <- (mask_gather d rows m H). apply mask_sublist. Qed.
+
+(* ------------------------------------------------------------------ Session.sort_on into another group *)
+Theorem session_sort_on_dest_correct cols keys d r :
+  spec_sort cols keys (Some d) = Some r -> session_sort_on cols keys (Some d) = Ok r.
+Proof.
+  unfold spec_sort. set (n := nrows cols).
+  destruct keys as [|k0 kt] eqn:Eby; [discriminate|]. rewrite <- Eby.
+  destruct (key_columns cols keys) as [kcs|] eqn:Hk; [|rewrite Eby; discriminate].
+  replace (match keys with [] => None | _ :: _ => if frame_ok n cols && nodup_names cols && dest_ok cols (Some d)
+             then Some (spec_select cols (lexsort_perm (rows_of n kcs)) (Some d)) else None end)
+    with (if frame_ok n cols && nodup_names cols && dest_ok cols (Some d)
+          then Some (spec_select cols (lexsort_perm (rows_of n kcs)) (Some d)) else None : option (frame * option frame))
+    by (rewrite Eby; reflexivity).
+  destruct (frame_ok n cols) eqn:Hok; [|discriminate].
+  destruct (nodup_names cols) eqn:Hnd; [|discriminate].
+  destruct (dest_ok cols (Some d)) eqn:Hdst; [|discriminate].
+  cbn [andb]. intros H. inversion H; subst r; clear H.
+  assert (Hne : keys <> []) by (rewrite Eby; discriminate).
+  destruct (sorted_index_correct cols keys kcs Hne Hk Hok) as [fields [Hr [Hs Hn]]]. fold n in Hs, Hn.
+  unfold session_sort_on. rewrite Hr. cbn [bind]. rewrite Hs. cbn [bind].
+  rewrite (cols_to_ddf_ok _ (lexsort_perm (rows_of n kcs))); [reflexivity| |exact Hnd|exact Hdst].
+  intros nf t Hin. destruct (frame_ok_in n cols nf Hok Hin) as [Hwf Hfl].
+  apply field_index_correct; [exact Hwf|rewrite Hfl; apply lexsort_in_range; exact Hn|reflexivity].
+Qed.
